@@ -162,7 +162,25 @@ def explore(tier, seed):
         if f and f["key"] not in seen:
             seen.add(f["key"])
             fails.append(f)
+    # exhaustive linear family (a*d0 + b*s0 + c) OP k: exercises the gcd / constant-term handling of the flattener
+    A_ = (-2, 2, 3, 4) if tier == "quick" else (-4, -2, 0, 2, 3, 4, 6)
+    B_ = (0, 4) if tier == "quick" else (0, 2, 4)
+    C_ = range(-3, 4) if tier == "quick" else range(-4, 5)
+    K_ = (2, 3, 4, 6) if tier == "quick" else (1, 2, 3, 4, 6)
+    for a in A_:
+        for b in B_:
+            for c in C_:
+                for k in K_:
+                    for op in ("floordiv", "ceildiv", "mod"):
+                        lin = ("+", ("+", ("*", ("d", 0), ("c", a), True), ("*", ("s", 0), ("c", b), True)), ("c", c))
+                        for t in ((op, lin, ("c", k), True), ("+", (op, lin, ("c", k), False), ("d", 1))):
+                            cases += 1
+                            f = check_tree(t)
+                            if f and f["key"] not in seen:
+                                seen.add(f["key"])
+                                fails.append(f)
     return {"cases": cases, "failures": fails, "exhaustive": False,
             "bound": f"{n} seeded expression trees of depth <= 3 over d0, d1, s0 and constants (+, -, neg, * by constants, floordiv/ceildiv/mod by positive "
                      f"constants, int and AffineExpr operands); build / simplify / replace_dims_and_symbols / compose / print+parse, each evaluated on "
-                     f"all {len(ENVS)} assignments of a box against an independent evaluator"}
+                     f"all {len(ENVS)} assignments of a box against an independent evaluator; plus the exhaustive linear family (a*d0 + b*s0 + c) "
+                     f"floordiv/ceildiv/mod k over small coefficient grids"}
